@@ -24,9 +24,9 @@ def runFrames (cx : Ctx) : Option Cell → List Bytes → List String
     | _, .error _ => "panic" :: runFrames cx none fs
 
 /-- `valuedecode <frame hex> <extra hex>` → refused | err <big01> | panic | ok <cmd64 hex> <sub-frame hex or -> <big01>
-    (big = a buffer of ≥ 64 KiB was allocated before the announced length was checked) -/
+    (big = a buffer of ≥ 128 KiB was allocated before the announced length was checked) -/
 def showBig : Option Nat → String
-  | some n => if n ≥ 65536 then "1" else "0"
+  | some n => if n ≥ 131072 then "1" else "0"
   | none => "0"
 
 def showDecode : DecodeResult → String
